@@ -22,6 +22,7 @@ import (
 	"io"
 	"net/http"
 	"net/url"
+	"sort"
 	"strconv"
 	"strings"
 	"sync"
@@ -693,17 +694,17 @@ func (o *operation) resolveMethod(transcoder *Transcoder) error {
 		if len(methods) == 0 {
 			return errNotFound
 		}
-		var sb strings.Builder
+		// (sorted: ranging over the map would give the same request a
+		// different answer from one time to the next)
+		allowed := make([]string, 0, len(methods))
 		for method := range methods {
-			if sb.Len() > 0 {
-				sb.WriteByte(',')
-			}
-			sb.WriteString(method)
+			allowed = append(allowed, method)
 		}
+		sort.Strings(allowed)
 		return &httpError{
 			code: http.StatusMethodNotAllowed,
 			header: http.Header{
-				"Allow": []string{sb.String()},
+				"Allow": []string{strings.Join(allowed, ",")},
 			},
 		}
 	}
